@@ -80,6 +80,58 @@ def calls_with_context(f):
     return out
 
 
+def is_local_helper(g):
+    """A lambda's call operator or a PhQ::Internal function: code that only the library itself calls."""
+    qn = g.get("qname", g.get("name", ""))
+    return "(anonymous class)::operator()" in qn or "(lambda" in qn or qn.startswith("PhQ::Internal::")
+
+
+_SITE_GUARDS = {}
+
+
+def site_guards(F):
+    """callee id -> [guarded?] over every call site in a library body."""
+    key = id(F)
+    if key not in _SITE_GUARDS:
+        m = {}
+        for f in F.fns.values():
+            if "body" in f and f["loc"].startswith(frontend.INC):
+                for n, g in calls_with_context(f):
+                    m.setdefault(n["f"], []).append((f["id"], g))
+        _SITE_GUARDS.clear()
+        _SITE_GUARDS[key] = m
+    return _SITE_GUARDS[key]
+
+
+def always_called_guarded(F, f, seen=None):
+    """Is every call of the local helper f (transitively through local helpers) inside a try with a non-rethrowing catch(...)?"""
+    seen = seen or set()
+    if f["id"] in seen or not is_local_helper(f):
+        return False
+    seen.add(f["id"])
+    sites = site_guards(F).get(f["id"], [])
+    if not sites:
+        return False
+    for caller_id, g in sites:
+        if g:
+            continue
+        caller = F.fns.get(caller_id)
+        if caller is None or not always_called_guarded(F, caller, seen):
+            return False
+    return True
+
+
+def deep_calls(F, f, guarded0=False, depth=0):
+    """Calls of f together with the calls of the local helpers it invokes (a helper's calls are guarded if the helper's call site is)."""
+    out = []
+    for n, g in calls_with_context(f):
+        out.append((n, g or guarded0))
+        callee = F.fns.get(n["f"])
+        if callee is not None and "body" in callee and is_local_helper(callee) and depth < 4:
+            out += deep_calls(F, callee, g or guarded0, depth + 1)
+    return out
+
+
 def has_throw(tree):
     found = []
     cg.walk(tree, lambda n: found.append(1) if n.get("k") == "throw" else None)
@@ -309,6 +361,8 @@ def run(chk):
                     discharged = None
                     if guarded:
                         discharged = "inside try { } catch (...) that does not rethrow"
+                    elif always_called_guarded(F, f):
+                        discharged = "in a local helper whose every call site lies inside try { } catch (...) that does not rethrow"
                     elif g["sname"] == "at" and tabs_here and all(table_total(t)[0] is True for t in tabs_here):
                         discharged = "key always present: " + table_total(tabs_here[0])[1]
                     elif g["sname"] == "operator()" and "std::function" in gq:
@@ -477,7 +531,7 @@ def run(chk):
         for f in F.by_qname.get("PhQ::ParseNumber", []):
             if "body" not in f:
                 continue
-            calls = calls_with_context(f)
+            calls = deep_calls(F, f)
             aliases = reference_aliases(F, f)
             sto = [(n, g) for n, g in calls if F.fns.get(n["f"], {}).get("sname", "").startswith("sto")]
             inst = f["name"]
